@@ -15,6 +15,7 @@ import (
 	"time"
 
 	"verif/sim/internal/eng"
+	"verif/sim/internal/engines/chain"
 	"verif/sim/internal/engines/conc"
 	"verif/sim/internal/sched"
 	"verif/sim/internal/shrink"
@@ -25,7 +26,8 @@ import (
 )
 
 var engines = map[string]eng.Engine{
-	"conc": conc.Engine{},
+	"conc":  conc.Engine{},
+	"chain": chain.Engine{},
 }
 
 // ReplayFile is the on-disk form of one (minimised) failing run.
@@ -51,6 +53,7 @@ type Summary struct {
 	Engine      string         `json:"engine"`
 	Race        bool           `json:"race"`
 	Evaluations int            `json:"evaluations"`
+	Runs        int            `json:"runs"`
 	Nontrivial  int            `json:"nontrivial"`
 	Requests    int            `json:"requests"`
 	Steps       int            `json:"steps"`
@@ -187,9 +190,17 @@ func batch(args []string) {
 		t := tape.New(rs)
 		trace := len(sum.Samples) < 2 && k >= 2
 		res := e.Run(t, eng.Opts{Trace: trace || lf != nil})
-		sum.Evaluations++
+		sum.Runs++
+		if res.Cases > 0 {
+			sum.Evaluations += res.Cases
+		} else {
+			sum.Evaluations++
+		}
 		sum.LastIndex = idx
-		if res.Nontrivial {
+		if len(res.Sigs) > 0 {
+			sum.Nontrivial += len(res.Sigs)
+			sigs = append(sigs, res.Sigs...)
+		} else if res.Nontrivial {
 			sum.Nontrivial++
 			sigs = append(sigs, res.Sig)
 		}
